@@ -778,6 +778,9 @@ func (this *fileDecompressTask) call() (int, uint64, error) {
 		// Delete input file
 		if inputName == "STDIN" {
 			log.Println("Warning: ignoring remove option with STDIN", verbosity > 0)
+		} else if strings.EqualFold(outputName, _DECOMP_NONE) {
+			// No output has been produced: the data would be lost
+			log.Println("Warning: ignoring remove option with output NONE", verbosity > 0)
 		} else if err := os.Remove(inputName); err != nil {
 			msg := fmt.Sprintf("Warning: input file could not be deleted (%v)\n", err)
 			log.Println(msg, verbosity > 0)
